@@ -35,6 +35,22 @@ fn copy_prog(opcode: u8, size: u64) -> Vec<u8> {
     assemble(&t)
 }
 
+/// `n` copies of `words` words each by the same opcode: every copy loop is shorter than the larger poll intervals, so
+/// only the sum of the work shows whether the polls track it (a loop that restarts its count at every instruction
+/// and polls only after a full interval would never poll here)
+fn many_copies_prog(opcode: u8, n: usize, words: u64) -> Vec<u8> {
+    let mut t = Vec::new();
+    for _ in 0..n {
+        t.extend([p(words * 32), p(0), p(0)]);
+        if opcode == op::EXTCODECOPY {
+            t.push(o(op::CALLER));
+        }
+        t.push(o(opcode));
+    }
+    t.extend([p(0), o(op::MLOAD), p(1), o(op::SSTORE)]);
+    assemble(&t)
+}
+
 fn call_prog(size: u64) -> Vec<u8> {
     // CALL with a constant return-data size: retSize retOffset argsSize argsOffset value address gas
     assemble(&[p(size), p(0), p(0), p(0), p(0), o(op::CALLER), o(op::GAS), o(op::CALL), p(2), o(op::SSTORE)])
@@ -88,6 +104,10 @@ fn programs(tier: Tier) -> Vec<Prog> {
     ] {
         for size in [0u64, 1, 32, 33, 320, limit + 1] {
             add(&format!("{name}({size})"), copy_prog(opc, size), 1);
+        }
+        // many short copies (round 8): 99 words is just under interval 100, 6 just under 7, and 2..3 around 2 and 3
+        for (n, words) in [(6usize, 99u64), (9, 6), (5, 2)] {
+            add(&format!("{n}x{name}({words} words)"), many_copies_prog(opc, n, words), 7);
         }
     }
     for size in [0u64, 33, 320] {
@@ -371,7 +391,10 @@ pub fn check_frequency(code: &[u8], interval: usize) -> Result<Vec<(String, u64,
             .sum();
         let copy_polls: u64 = copies.iter().map(|w| (w + interval as u64 - 1) / interval as u64).sum();
         let k = interval as u64;
-        let lo = work / k + copies.iter().map(|w| w / k).sum::<u64>();
+        // the promise is about the iterations waited between two polls (`Watchdog::poll_every`), so what is bounded from
+        // below is the poll count against the *sum* of the work: copy loops restart their count at every instruction, and
+        // a sequence of loops each shorter than the interval must still be polled as often as its total length demands
+        let lo = (work + copies.iter().sum::<u64>()) / k;
         let hi = 2 * ((work + k - 1) / k + copy_polls) + 2 + copies.len() as u64;
         report.push(("vm".into(), work, vm_polls));
         if vm_polls < lo || vm_polls > hi {
@@ -697,7 +720,7 @@ impl Check for C13 {
     fn assumptions(&self, _tier: Tier) -> Vec<String> {
         vec![
             "all runs use the canonical iteration order (hooks): with natural hash order the number of polls of one run varies, so a poll index only denotes a point of the execution once the order is owned".into(),
-            "exact phase of a poll (counter % k == 0 vs k-1), error location and extra polls are don't-cares; poll intervals between 8 and 99 and above 1000 are not run".into(),
+            "exact phase of a poll (counter % k == 0 vs k-1) of a loop whose counter lives for the whole stage, error location and extra polls are don't-cares; the VM's polls are bounded from below by (instructions + all copy words) / interval, so copy loops, which restart their count at every instruction, have to poll on entry or carry the count over; poll intervals between 8 and 99 and above 1000 are not run".into(),
         ]
     }
     fn replay(&self, replay: &Value) -> bool {
